@@ -110,7 +110,18 @@ LatchMore == {
 InD2 == SIn("d", "signal-D", 5)
 Foreign == {P("foreign", <<InD2, InX, InE, Mem("m", TM), Wr("m", Proj(D, TName(TM)), Bin(">", E, Num(0))), Rd("o", "m"), SLet("Signal", "p", v)>>, <<-3, 0, 1, 5>>) :
               v \in {Bin("*", ReadE("m"), X), Bin("-", X, ReadE("m")), CondE(Bin(">", ReadE("m"), X), Num(1))}}
-Cells == Cell1 \cup Shared \cup Readers \cup Two \cup CellSameType \cup SameEnable \cup EarlyReaders \cup Foreign
+\* the enable is a NAMED arithmetic value that something else consumes too (a reader of the name, the data of a second cell), or an
+\* inline arithmetic expression: the cell's gates must see it on the reserved enable signal while every other consumer of the
+\* name still finds it on its own type (fourth seeded round: the combinator computing the enable retyped in place)
+LV == Ref("lv")
+DomEn == <<0, 1, 2, 5>>
+EnAlias == {P("enalias", <<InD, InE>> \o (IF a.k = "bin" /\ a.r = F THEN <<InF>> ELSE <<>>) \o <<SLet("Signal", "lv", a), Mem("m", TM), Wr("m", D, LV), Rd("o", "m"), SLet("Signal", "p", Bin("+", LV, Num(1)))>>, DomEn) :
+              a \in {Bin("*", E, Num(2)), Bin("+", E, F), Bin("/", E, Num(2)), Bin("%", E, Num(2))}}
+  \cup {P("enalias", <<InD, InE, InF, SLet("Signal", "lv", a), Mem("m", TM), Mem("n", "signal-N"), Wr("n", Proj(LV, TName("signal-N")), Bin(">", F, Num(0))), Wr("m", D, LV), Rd("o", "m"), Rd("p", "n")>>, DomEn) :
+              a \in {Bin("*", E, Num(2)), Bin("/", E, Num(2))}}
+  \cup {P("enalias", <<InD, InE, InF, Mem("m", TM), SLet("Signal", "lv", Bin("*", E, Num(3))), Wr("m", D, LV), Rd("o", "m"), SLet("Signal", "q", Bin(">", LV, F))>>, DomEn)}
+  \cup {P("enalias", <<InD, InE>> \o (IF a.r = F THEN <<InF>> ELSE <<>>) \o <<Mem("m", TM), Wr("m", D, a), Rd("o", "m")>>, DomEn) : a \in {Bin("*", E, Num(2)), Bin("+", E, F)}}
+Cells == EnAlias \cup Cell1 \cup Shared \cup Readers \cup Two \cup CellSameType \cup SameEnable \cup EarlyReaders \cup Foreign
 \* set and reset watch two DIFFERENT inputs of ONE signal type (two sources of the same type are legal; each condition must read
 \* its own source), directly and through a derived alias
 InS2 == SIn("s", "signal-S", 0)
